@@ -552,13 +552,25 @@ def _preemptive(repo, chk, gf):
     out = decl.evaluate(env)
     chk.expect(out.body.preemptive is True, 'C05.F1', 'FuncDeclaration.evaluate (implicit return)',
                'appending the implicit return must keep the body preemptive', 'hidc/ast/program.py')
-    # parser: ps_code_block ORs the flags of child blocks
-    cbf = repo.find_func(GRAMMAR, 'ps_code_block')
-    text = src(cbf)
-    ok = 'preemptive |= block.preemptive' in text or 'preemptive = preemptive or block.preemptive' in text
-    ret = [n for n in ast.walk(cbf) if isinstance(n, ast.Return) and n.value is not None]
-    ok = ok and ret and src(ret[-1].value).replace(' ', '').endswith(',preemptive)')
-    chk.expect(ok, 'C05.F1', 'ps_code_block', 'the parser must OR the preemptive flag of every child block into the CodeBlock', GRAMMAR)
+    # parser: the code block the parser builds is preemptive iff one of its child blocks is (whatever position, also behind
+    # other statements and empty statements) - small bodies parsed by the interpreted front end
+    from ..frontend import Frontend
+    fe = Frontend(repo)
+    bodies = [('preempt { }', True), ('int x = 1;', False), ('', False), ('int x = 1; preempt { } x = 2;', True), ('; ; preempt { } ;', True),
+              ('if (true) { preempt { } }', True), ('if (true) { } else { preempt { } }', True), ('while (true) { preempt { } }', True),
+              ('for (;;) { preempt { } }', True), ('{ preempt { } }', True), ('{ } { preempt { } } { }', True), ('{ } { int y = 2; }', False),
+              ('if (true) { } preempt { }', True), ('preempt { } if (true) { }', True), ('{ { { preempt { } } } }', True),
+              ('while (true) { if (true) { } }', False)]
+    bad = None
+    for body, want in bodies:
+        res = fe.parse('empty !f() { ' + body + ' }')
+        if isinstance(res, tuple):
+            bad = bad or f'`{body}` does not parse: {res[2]}'
+            continue
+        got = res.func_decls[0].body.preemptive
+        if bool(got) is not want:
+            bad = bad or f'a defeat function with body `{body}` is parsed as preemptive={got}'
+    chk.expect(bad is None, 'C05.F1', 'ps_code_block', bad or f'{len(bodies)} bodies: preemptive iff a child block is', GRAMMAR)
     # generator: protection flag and its emission point
     gfn = gf.methods['gen_func']
     asg = [n for n in ast.walk(gfn) if isinstance(n, ast.Assign) and src(n.targets[0]) == 'self.needs_return_protection']
